@@ -26,7 +26,7 @@ def c07_projects(quick: bool, rng: random.Random) -> List[Dict[str, Any]]:
     ps = list(families.t3_reexport()) + [p for p in families.t5_duplicates() if "move" in p["meta"].get("shape", "")] \
         + list(families.t7_moved_class_with_moved_base()) + list(families.t8_prefix_roots()) \
         + list(families.t9_reexport_while_origin_processing()) + list(families.t11_cycle_rename_and_consumer_first()) \
-        + list(families.t14_two_roots_facade()) + list(families.t10_double_reexport())
+        + list(families.t14_two_roots_facade()) + list(families.t10_double_reexport()) + list(families.t16_type_checking_cycle())
     if not quick:
         extra = [families.random_project(rng, rng.randint(3, 5)) for _ in range(300)]
         ps += [p for p in extra if P.expected_reexports(p)][:120]
@@ -232,6 +232,13 @@ def run(ctx: Ctx) -> int:
     r0 = results[0]
     ctx.sample({"family": r0["project"]["family"], "meta": r0["project"]["meta"], "sched": r0["sched"],
                 "expected_reexports": P.expected_reexports(r0["project"]), "real_keys": sorted(r0["real"]["dump"])})
+    # ---- annotations naming a re-exported class, judged on the written pages (hand-written project, real driver)
+    from .. import reexport_pages
+    for wit in reexport_pages.check(ctx.scratch):
+        ctx.violation({"invariant": "AnnotationLinks", "failed": ["AnnotationLinks"], "side": "written pages", "detail": wit,
+                       "origin": {"family": "reexport_pages"}, "key": "pages:" + json.dumps(wit, sort_keys=True)[:160]})
+    ctx.extra["page_level_annotation_expectations"] = len(reexport_pages.EXPECT)
+    ctx.traces += 1
     # negative control: an expectation with the wrong new location must be flagged
     fake = dict(r0)
     fake["real"] = dict(r0["real"])
@@ -254,6 +261,14 @@ def run(ctx: Ctx) -> int:
 
 def replay(ctx: Ctx, path: str) -> int:
     w = json.load(open(path))
+    if w.get("side") == "written pages":
+        from .. import reexport_pages
+        bad = bool(reexport_pages.check(ctx.scratch))
+        print("replay:", "still violated" if bad else "holds now")
+        if bad:
+            print(f"VIOLATION property=C07 replay={path}")
+        ctx.cleanup()
+        return 1 if bad else 0
     o = w["origin"]
     proj = {**o["project"], "family": o.get("family", ""), "meta": {}}
     real = P.real_build(proj, o["sched"], ctx.scratch)
